@@ -97,18 +97,49 @@ class Walker:
                     return "%s::%s[*]" % (base.get("owner"), base["name"])
         return None
 
+    def slots_of(self, e):
+        """like slot_of, but also resolves `p->get()` where p iterates over a local array of addresses of string members
+        (`NiString* const a[] = {&x->m1, &x->m2}; for (NiString* p : a) ...`): one slot per array element"""
+        s_ = self.slot_of(e)
+        if s_:
+            return [s_]
+        x = e
+        while is_node(x) and (x["k"] == "Cast" or (x["k"] == "Construct" and len(x.get("args", [])) == 1)):
+            x = x["e"] if x["k"] == "Cast" else x["args"][0]
+        if not (is_node(x) and x["k"] == "Call" and x.get("short") == "get" and is_node(x.get("recv"))):
+            return []
+        r = x["recv"]
+        while is_node(r) and (r["k"] == "Cast" or (r["k"] == "Unary" and r["op"] == "*")):
+            r = r["e"]
+        if not (is_node(r) and r["k"] == "Ref" and r.get("id") in self.inits):
+            return []
+        i = self.inits[r["id"]]
+        base = i.get("base") if is_node(i) and i["k"] == "Subscript" else None
+        while is_node(base) and base["k"] == "Cast":
+            base = base["e"]
+        if not (is_node(base) and base["k"] == "Ref" and base.get("id") in self.inits):
+            return []
+        arr = self.inits[base["id"]]
+        out = []
+        for el in (arr.get("elems") or arr.get("inits") or arr.get("args") or []) if is_node(arr) and arr["k"] == "InitList" else []:
+            m = el
+            while is_node(m) and (m["k"] == "Cast" or (m["k"] == "Unary" and m["op"] == "&")):
+                m = m["e"]
+            if is_node(m) and m["k"] == "Member":
+                out.append("%s::%s" % (m.get("owner"), m["name"]))
+        return out
+
     def run(self):
         F, fn = self.F, self.fn
         sites = []
         for n in walk(fn["body"]):
             if self.kind == "access" and n["k"] == "Call" and n.get("short") == "push_back" and n.get("args"):
-                s = self.slot_of(n["args"][0])
-                if s:
+                for s in self.slots_of(n["args"][0]):
                     sites.append((n, s))
             if self.kind == "trim" and (n["k"] == "OpCall" and n.get("op") == "=" and len(n.get("args", [])) == 2):
-                s = self.slot_of(n["args"][0])
-                if s and any(x["k"] == "OpCall" and x.get("op") == "()" for x in walk(n["args"][1])):
-                    sites.append((n, s))
+                if any(x["k"] == "OpCall" and x.get("op") == "()" for x in walk(n["args"][1])):
+                    for s in self.slots_of(n["args"][0]):
+                        sites.append((n, s))
             if n["k"] == "OpCall" and n.get("op") == "()" and n.get("args") and is_node(n["args"][0]) and len(n["args"]) >= 2:
                 lam = F.fns.get(n.get("fid")) if n.get("fid") in F.fns and F.fns[n["fid"]].get("lambda_parent") else None
                 if lam is None and n["args"][0]["k"] == "Ref" and n["args"][0].get("id") in self.lambdas:
@@ -128,7 +159,9 @@ class Walker:
                         for x in sets[1:]:
                             common &= x
                         self.inner_atoms[id(n)] = frozenset(common)
-        ids = {id(n): s for n, s in sites}
+        ids = {}
+        for n, s in sites:
+            ids.setdefault(id(n), []).append(s)
         col = flow.Collect(F, fn, lambda n: id(n) in ids)
         saved = flow.KEYNODE
         flow.KEYNODE = {}  # guard keys are resolved to *this* function's nodes (local names collide across walkers)
@@ -148,7 +181,8 @@ class Walker:
                         if is_node(node) and not (node["k"] == "Binary" and node["op"] == "&&"):  # its conjuncts are facts of their own
                             a.add(self.expand(node))
                 atoms = a if atoms is None else (atoms & a)
-            out.setdefault(ids[id(n)], []).append((frozenset(atoms or ()) | self.inner_atoms.get(id(n), frozenset()), n))
+            for slot_ in ids[id(n)]:
+                out.setdefault(slot_, []).append((frozenset(atoms or ()) | self.inner_atoms.get(id(n), frozenset()), n))
         return out
 
     def _lambda_touches_slot(self, lam):
